@@ -188,4 +188,31 @@ var checks = map[string]*check{
 			{Name: "schedules", Kind: "explore", Scen: "stdio_sync", Inst: inst("sched", "sched"), Depths: depths([]int{2}, []int{2, 3}), Budget: budget(3*time.Minute, 20*time.Minute)},
 		},
 	},
+	"C13": {
+		Title: "SecureConfig runs the binary only if its checksum matches",
+		Level: "exploration",
+		Rule: "file contents {minimal script, +1 byte, +1 KiB (quick: these), +100 KiB} x hash {sha256, sha1, md5, sha512} x checksum {exact; single-bit flips (quick: all bits of the first two bytes and the extreme bits of every byte; thorough: every bit); every proper prefix; exact plus 1 and 2 trailing bytes; empty; nil; all zeros; digest of another file; nil hash function} " +
+			"through the real Client.Start with a real executable that appends to a launch marker; non-trivial = any non-matching checksum",
+		Assumptions: []string{"real command launch (SecureConfig is meaningless with RunnerFunc); launch observed through a marker file written by the executable"},
+		Parts:       []part{{Name: "checksums", Kind: "enum", Bin: "e3.test", Test: "TestC13"}},
+	},
+	"C14": {
+		Title: "Host and plugin configurations interoperate exactly when compatible",
+		Level: "exploration",
+		Rule: "complete enumeration of the matrix plugin {net/rpc, gRPC} x plugin security {none, TLSProvider} x host allowed list {nil, [netrpc], [grpc], both} x host security {none, static TLS, AutoMTLS} x host multiplexing {off, on} x launch {command, custom runner}, plus multiplexing requested from plugins that do not advertise it, option conflicts (Cmd+Reattach, SecureConfig+Reattach, mux+Reattach), unknown plugin name and reattach on both protocols: " +
+			"each cell is a real plugin.Serve child (vplugin) paired with a real plugin.Client in a fresh host process, compared with an expected-outcome table (works end to end incl. brokered callback, 5 MB response, ping, synced stdio / error at start with the dedicated text and the child gone / error on first use, never silent success); non-trivial = any cell that is not the all-default one",
+		Assumptions: []string{
+			"no schedule control over real processes: verdicts do not depend on timing; a cell exceeding 150 s counts as a hang",
+			"static TLS cells give both sides a configuration usable in both directions (certificate + roots), as a user of brokered gRPC connections must",
+		},
+		Parts: []part{{Name: "matrix", Kind: "enum", Bin: "e3.test", Test: "TestC14"}},
+	},
+	"C16": {
+		Title: "Plugin serves only with the right cookie; announces one well-formed line",
+		Level: "exploration",
+		Rule: "complete product cookie variable {unset, empty, exact, prefix, suffix, trailing blank, case-changed, other} x configured key/value {both, key empty, value empty} x {net/rpc, gRPC} x {no TLS, TLSProvider, PLUGIN_CLIENT_CERT set} x {legacy, versioned {1,2}} x PLUGIN_MULTIPLEX_GRPC {unset, empty, true, false, 1, junk} = 1728 real plugin.Serve processes, each with a fresh socket directory; " +
+			"non-trivial = anything but the exact-cookie, no-TLS, mux-unset case",
+		Assumptions: []string{"the ordering listener -> line -> stdout swap is program order in one goroutine; what is exhaustive is the environment x configuration product", "'nothing else on stdout' is observed for 150 ms after the line"},
+		Parts:       []part{{Name: "cookie-and-line", Kind: "enum", Bin: "e3.test", Test: "TestC16"}},
+	},
 }
